@@ -213,6 +213,24 @@ PROPS = {
                    'without a key and the socket-level liveness are covered by the process driver, not by theorems.',
         technique='Lean 4 proof (access-rule theorems over the request state machine) + model/implementation correspondence under scripted chunking',
     ),
+    'C19': dict(
+        areas=[('walk', 1500, 150000)],
+        rule='generated directory trees in a scratch directory (removed afterwards): up to 7 directories nested up to 4 deep, up to 8 '
+             'files, names with spaces / newlines / non-ASCII, hidden files and directories, .git / node_modules, symlinks to a '
+             'directory and to a file; all combinations of file / dir / hidden / follow, skip lists by base name, by path, by path '
+             'suffix and with a leading separator; roots "." and a sub-directory; outputs compared as sorted multisets; '
+             'non-trivial = at least two paths listed and at least one entry not listed; distinct = distinct case lines',
+        trusted=['fastwalk visits every entry below a root once, parents first, and honours SkipDir (its parallel order is not modelled: '
+                 'outputs are compared sorted)', 'the file system of the sandbox'],
+        level_text='Lean 4 theorems about the walker model: a pruned directory (hidden without `hidden`, or matched by a skip rule) '
+                   'contributes nothing, itself or below; a plain file is listed once iff `file`; a symbolic link is not entered '
+                   'without `follow`; everything listed while visiting an entry lies under the path it is printed as; the skip '
+                   'rules on the documented examples (foo/bar vs baz/foo/bar vs bazfoo/bar). readFiles is run on generated trees '
+                   'and compared with the model as multisets.',
+        level_note='Partial: walk = declarative tree predicate for ALL trees is checked per case. Known finding F12: hidden *files* in '
+                   'visible directories are listed although `hidden` is unset (the man page speaks of hidden directories).',
+        technique='Lean 4 proof (structural theorems over the visit recursion) + model/implementation correspondence on generated trees',
+    ),
     'C18': dict(
         level_text='Lean 4 theorems over a hand-written model of src/history.go (file contents after any sequence of '
                    'sessions, cursor range, slot-editor refinement, edits never persisted), tied to /repo by an in-process '
